@@ -118,8 +118,14 @@ func TestOrderedMapRoundTrip(t *testing.T) {
 				fail("Decode(uint8,*struct): consumed %d of %d, err %v", c, len(bp), err)
 			}
 			var x1, x2 []string
-			cp.ForEach(func(k uint8, v *omPtr) bool { x1 = append(x1, fmt.Sprintf("%d:%d/%x", k, v.A, []byte(v.B))); return true })
-			cp2.ForEach(func(k uint8, v *omPtr) bool { x2 = append(x2, fmt.Sprintf("%d:%d/%x", k, v.A, []byte(v.B))); return true })
+			cp.ForEach(func(k uint8, v *omPtr) bool {
+				x1 = append(x1, fmt.Sprintf("%d:%d/%x", k, v.A, []byte(v.B)))
+				return true
+			})
+			cp2.ForEach(func(k uint8, v *omPtr) bool {
+				x2 = append(x2, fmt.Sprintf("%d:%d/%x", k, v.A, []byte(v.B)))
+				return true
+			})
 			if fmt.Sprint(x1) != fmt.Sprint(x2) {
 				fail("decoded (uint8,*struct) contents/order %v != %v", x2, x1)
 			}
